@@ -428,4 +428,67 @@ theorem input_total {k : Kcp} (h : InvK k) (d : Bytes) (regular ackNoDelay : Boo
             simp only []
             omega
 
+/-- the return code of `Input` in ANY state (no invariant needed): a function of the bytes and
+the conversation id -/
+theorem input_ret (k : Kcp) (d : Bytes) (regular ackNoDelay : Bool) (now : U32) :
+    (input k d regular ackNoDelay now).ret = inputRet k.conv d := by
+  unfold input inputRet
+  by_cases hshort : d.length < IKCP_OVERHEAD
+  · rw [if_pos hshort, if_pos hshort]
+  · rw [if_neg hshort, if_neg hshort]
+    have hl := inputLoop_ok regular (d.length / IKCP_OVERHEAD + 1) d { k := k } rfl rfl
+    simp only []
+    generalize inputLoop regular (d.length / IKCP_OVERHEAD + 1) d { k := k } = st at hl
+    simp only [] at hl
+    rw [if_neg (by rw [hl.1]; decide)]
+    by_cases hret : st.ret < 0
+    · rw [if_pos hret]; exact hl.2.1
+    · rw [if_neg hret]
+      have hr0 : retSpec k.conv (d.length / IKCP_OVERHEAD + 1) d = 0 := by
+        have := retSpec_cases k.conv (d.length / IKCP_OVERHEAD + 1) d
+        have := hl.2.1
+        omega
+      rw [hr0]
+      generalize cwndOnAck _ k.snd_una = k2
+      split
+      · rfl
+      · split
+        · rfl
+        · split <;> rfl
+
+theorem inputRet_cases (conv : U32) (d : Bytes) :
+    inputRet conv d = 0 ∨ inputRet conv d = -1 ∨ inputRet conv d = -2 ∨ inputRet conv d = -3 := by
+  unfold inputRet
+  split
+  · exact Or.inr (Or.inl rfl)
+  · exact retSpec_cases _ _ _
+
+/-- the parse loop's verdict does not depend on the fuel once there is one unit per 24 bytes -/
+theorem retSpec_fuel (conv : U32) (f1 f2 : Nat) (d : Bytes)
+    (h1 : d.length / IKCP_OVERHEAD < f1) (h2 : d.length / IKCP_OVERHEAD < f2) :
+    retSpec conv f1 d = retSpec conv f2 d := by
+  induction f1 generalizing f2 d with
+  | zero => exact absurd h1 (Nat.not_lt_zero _)
+  | succ f1 ih =>
+    cases f2 with
+    | zero => exact absurd h2 (Nat.not_lt_zero _)
+    | succ f2 =>
+      unfold retSpec
+      split
+      · rfl
+      · split
+        · rfl
+        · split
+          · rfl
+          · split
+            · rfl
+            · rename_i hlen _ _ _
+              have hl : (nextSeg d).length ≤ d.length - IKCP_OVERHEAD := by
+                unfold nextSeg; simp only [List.length_drop]; omega
+              have : (nextSeg d).length / IKCP_OVERHEAD ≤ (d.length - IKCP_OVERHEAD) / IKCP_OVERHEAD :=
+                Nat.div_le_div_right hl
+              apply ih
+              · unfold IKCP_OVERHEAD at *; omega
+              · unfold IKCP_OVERHEAD at *; omega
+
 end KcpVerif.Total
